@@ -354,4 +354,33 @@ def autoflow (sizes : List Nat) (tmpl : Template) (fuel : Nat) (s : Schedule) : 
   | .error e => .error e
   | .ok rs => .ok rs.head?
 
+/-! ## `next(scheduler_backtrack(..))`: the FIRST yielded schedule, lazily -/
+
+/-- the `for` loop of the generator, stopped at the first yielded schedule (later iterations are not run, so
+their exceptions are not raised) -/
+def btLoopFirst (step : Schedule → Except Err (Schedule × Option Schedule))
+    (rec : Schedule → Except Err (Option Schedule)) : Nat → Schedule → Except Err (Option Schedule)
+  | 0, _ => .ok none
+  | i + 1, s =>
+    match step s with
+    | .error e => .error e
+    | .ok (s1, cand) =>
+      match (match cand with | none => Except.ok none | some c => rec c) with
+      | .error e => .error e
+      | .ok (some r) => .ok (some r)
+      | .ok none => btLoopFirst step rec i s1
+
+/-- `next(scheduler_backtrack(template, schedule, k, checks), None)` -/
+def backtrackFirst (mtch : Template → Schedule → Except Err Bool) (checks : List (Template → Schedule → Bool))
+    (tmpl : Template) : Nat → Schedule → Nat → Except Err (Option Schedule)
+  | 0, _, _ => .error .outOfFuel
+  | fuel + 1, s, k =>
+    if k > s.n then .ok (some s)
+    else btLoopFirst (btStep mtch checks tmpl k) (fun c => backtrackFirst mtch checks tmpl fuel c (k + 1)) (s.n - k + 1) s
+
+/-- `AutoflowScheduler` as the pass really runs it: `canonicalize`, then `next(..)` of the search under the two
+default constraints; `none` = `StopIteration` -/
+def autoflowFirst (sizes : List Nat) (tmpl : Template) (fuel : Nat) (s : Schedule) : Except Err (Option Schedule) :=
+  backtrackFirst matchesQ [isPureOutputStationary, isMemoryFlexibleEnough sizes] tmpl fuel (canonicalize s) 1
+
 end SnaxVerif.Sched
